@@ -25,7 +25,9 @@ theorem next_sound (s : Strat) (now : Nat) (key : Bytes) (i : Nat)
   cases hk : s.kind <;> simp only [Strat.next, hk] at h
   · exact rrPick_sound s.pool now s.cur i h
   · obtain ⟨b, h1, h2, _⟩ := (lcPick_spec s.pool now).1 i h; exact ⟨b, h1, h2⟩
-  · exact (wrrPick_spec s.pool now).1 i h
+  · split at h
+    · simp at h
+    · exact (wrrPick_spec s.pool s.ids s.lastEl now).1 i h
   · exact (choice_valid s.pool now key).1 i h
   · exact (choice_valid s.pool now key).2.1 i h
 
@@ -40,7 +42,11 @@ theorem next_complete (s : Strat) (now : Nat) (key : Bytes) (hg : Guard s)
       have := hg.2 hk b hb
       omega
     · simpa using he
-  · exact (wrrPick_spec s.pool now).2 h
+  · split at h
+    · rename_i h0
+      have : s.pool = [] := List.length_eq_zero_iff.mp h0
+      intro b hb; rw [this] at hb; cases hb
+    · exact (wrrPick_spec s.pool s.ids s.lastEl now).2 h
   · by_cases hne : eligibleIdx s.pool now = []
     · exact eligibleIdx_nil s.pool now hne
     · have := ((choice_valid s.pool now key).2.2 hne).1
@@ -57,7 +63,27 @@ def sameHealth (a b : List Backend) : Prop :=
 theorem sameHealth_refl (a : List Backend) : sameHealth a a :=
   ⟨rfl, fun i x y hx hy => by rw [hx] at hy; cases hy; exact ⟨rfl, rfl⟩⟩
 
-theorem wrrPick_sameHealth (pool : List Backend) (now : Nat) : sameHealth (wrrPick pool now).1 pool := by
+theorem sameHealth_trans (a b c : List Backend) (h1 : sameHealth a b) (h2 : sameHealth b c) : sameHealth a c := by
+  refine ⟨h1.1.trans h2.1, ?_⟩
+  intro i x z hx hz
+  have hlt : i < b.length := by rw [← h1.1]; exact (List.getElem?_eq_some_iff.mp hx).1
+  have hy := List.getElem?_eq_getElem hlt
+  have e1 := h1.2 i x _ hx hy
+  have e2 := h2.2 i _ z hy hz
+  exact ⟨e1.1.trans e2.1, e1.2.trans e2.2⟩
+
+theorem wrrReset_sameHealth (pool : List Backend) (ids lastEl : List Nat) (now : Nat) :
+    sameHealth (wrrReset pool ids lastEl now) pool := by
+  simp only [wrrReset]
+  split
+  · exact sameHealth_refl _
+  · constructor
+    · simp
+    · intro i x y hx hy
+      simp only [List.getElem?_map, hy, Option.map_some, Option.some.injEq] at hx
+      subst hx; exact ⟨rfl, rfl⟩
+
+theorem wrrPickCore_sameHealth (pool : List Backend) (now : Nat) : sameHealth (wrrPickCore pool now).1 pool := by
   have hb : sameHealth (wrrBump pool now) pool := by
     constructor
     · simp [wrrBump]
@@ -65,7 +91,7 @@ theorem wrrPick_sameHealth (pool : List Backend) (now : Nat) : sameHealth (wrrPi
       simp only [wrrBump, List.getElem?_map, hy, Option.map_some, Option.some.injEq] at hx
       subst hx
       split <;> exact ⟨rfl, rfl⟩
-  simp only [wrrPick]
+  simp only [wrrPickCore]
   split
   · exact hb
   · rename_i r c _
@@ -85,11 +111,17 @@ theorem wrrPick_sameHealth (pool : List Backend) (now : Nat) : sameHealth (wrrPi
           subst hx
           exact hz
 
+theorem wrrPick_sameHealth (pool : List Backend) (ids lastEl : List Nat) (now : Nat) :
+    sameHealth (wrrPick pool ids lastEl now).1 pool :=
+  sameHealth_trans _ _ _ (wrrPickCore_sameHealth _ now) (wrrReset_sameHealth pool ids lastEl now)
+
 theorem next_sameHealth (s : Strat) (now : Nat) (key : Bytes) : sameHealth (s.next now key).1.pool s.pool := by
   cases hk : s.kind <;> simp only [Strat.next, hk]
   · exact sameHealth_refl _
   · exact sameHealth_refl _
-  · exact wrrPick_sameHealth s.pool now
+  · split
+    · exact sameHealth_refl _
+    · exact wrrPick_sameHealth s.pool s.ids s.lastEl now
   · exact sameHealth_refl _
   · exact sameHealth_refl _
 
@@ -141,7 +173,8 @@ theorem findBackend_first (y : Sys) (now : Nat) (key : Bytes) (fuel : Nat) :
       have hel : ((y.strat.next now key).1.pool[i]).eligible now = true := by
         rw [eligible_of_sameHealth _ b now (hsh.2 i _ b hb' hb)]; exact he
       have := isHealthyAt_eligible
-        { y with pool := zipBack y.pool (y.strat.next now key).1.pool, cur := (y.strat.next now key).1.cur }
+        { y with pool := zipBack y.pool (y.strat.next now key).1.pool, cur := (y.strat.next now key).1.cur,
+                 lastEl := (y.strat.next now key).1.lastEl }
         i now _ hz hel
       simp [this]
 
@@ -156,20 +189,34 @@ theorem next_name (s : Strat) (now : Nat) (key : Bytes) (i : Nat) (x y : Backend
   cases hk : s.kind <;> simp only [Strat.next, hk] at hy
   · rw [hx] at hy; cases hy; rfl
   · rw [hx] at hy; cases hy; rfl
-  · simp only [wrrPick] at hy
-    have hbump : ∀ z, (wrrBump s.pool now)[i]? = some z → z.name = x.name := by
-      intro z hz
-      simp only [wrrBump, List.getElem?_map, hx, Option.map_some, Option.some.injEq] at hz
-      subst hz; split <;> rfl
-    split at hy
-    · exact hbump y hy
-    · rename_i r c _
-      rw [List.getElem?_modify] at hy
-      cases hbi : (wrrBump s.pool now)[i]? with
-      | none => simp [hbi] at hy
-      | some z =>
-        have := hbump z hbi
-        by_cases hri : r = i <;> simp [hbi, hri] at hy <;> subst hy <;> exact this
+  · split at hy
+    · rw [hx] at hy; cases hy; rfl
+    · simp only [wrrPick, wrrPickCore] at hy
+      have hreset : ∀ z, (wrrReset s.pool s.ids s.lastEl now)[i]? = some z → z.name = x.name := by
+        intro z hz
+        simp only [wrrReset] at hz
+        split at hz
+        · rw [hx] at hz; cases hz; rfl
+        · simp only [List.getElem?_map, hx, Option.map_some, Option.some.injEq] at hz
+          subst hz; rfl
+      have hbump : ∀ z, (wrrBump (wrrReset s.pool s.ids s.lastEl now) now)[i]? = some z → z.name = x.name := by
+        intro z hz
+        simp only [wrrBump, List.getElem?_map] at hz
+        cases hr : (wrrReset s.pool s.ids s.lastEl now)[i]? with
+        | none => simp [hr] at hz
+        | some w =>
+          simp only [hr, Option.map_some, Option.some.injEq] at hz
+          have := hreset w hr
+          subst hz; split <;> exact this
+      split at hy
+      · exact hbump y hy
+      · rename_i r c _
+        rw [List.getElem?_modify] at hy
+        cases hbi : (wrrBump (wrrReset s.pool s.ids s.lastEl now) now)[i]? with
+        | none => simp [hbi] at hy
+        | some z =>
+          have := hbump z hbi
+          by_cases hri : r = i <;> simp [hbi, hri] at hy <;> subst hy <;> exact this
   · rw [hx] at hy; cases hy; rfl
   · rw [hx] at hy; cases hy; rfl
 
